@@ -4,13 +4,22 @@ From MT Require Import Types Infer GetTypeSound.
 
 (* Soundness, for EVERY class hierarchy table h, EVERY limit k, EVERY finite collection of
    (well-formed: dict keys distinct) values: whenever inference returns a type, every observed
-   value is a member of it. *)
+   value is a member of it - already under the TIGHT reading, in which `Any` (which inference only
+   produces for the elements of an empty container) admits nothing ... *)
 Theorem infer_sound :
-  forall (anyb : bool) (h : hierarchy) (k : nat) (vs : list value) (t : ty) (v : value),
+  forall (h : hierarchy) (k : nat) (vs : list value) (t : ty) (v : value),
     forallb wf_valueb vs = true -> infer k vs = Some t -> In v vs ->
-    member anyb (subclass h) v t = true.
+    member false (subclass h) v t = true.
 Proof. exact infer_sound_hier. Qed.
 Print Assumptions infer_sound.
+
+(* ... and hence under the annotation reading, in which Any admits everything. *)
+Theorem infer_sound_annotation :
+  forall (h : hierarchy) (k : nat) (vs : list value) (t : ty) (v : value),
+    forallb wf_valueb vs = true -> infer k vs = Some t -> In v vs ->
+    member true (subclass h) v t = true.
+Proof. exact infer_sound_hier_anno. Qed.
+Print Assumptions infer_sound_annotation.
 
 (* The inferred type is well formed (TypedDict field names pairwise distinct, required and
    optional disjoint) — the invariant make_typed_dict's assert needs. *)
